@@ -56,6 +56,9 @@ enum Pay {
     Bool(bool),
     Null,
     Missing,
+    /// `Value::Number(+inf)` (true) / `Value::Number(-inf)` (false): numbers like any other for min, max, sum and
+    /// average (one case holds infinities of one sign only, so no sum is inf - inf)
+    Inf(bool),
 }
 
 impl Pay {
@@ -67,10 +70,11 @@ impl Pay {
             Pay::Bool(b) => Some(Value::Boolean(*b)),
             Pay::Null => Some(Value::Null),
             Pay::Missing => None,
+            Pay::Inf(pos) => Some(Value::Number(if *pos { f64::INFINITY } else { f64::NEG_INFINITY })),
         }
     }
     fn is_numeric(&self) -> bool {
-        matches!(self, Pay::Int(_) | Pay::Quarter(_))
+        matches!(self, Pay::Int(_) | Pay::Quarter(_) | Pay::Inf(_))
     }
 }
 
@@ -1138,7 +1142,7 @@ fn fold<'a>(evs: impl Iterator<Item = &'a StreamEvent>, field: &str) -> Fold {
 }
 
 fn approx(a: f64, b: f64) -> bool {
-    (a - b).abs() <= 1e-9 * 1f64.max(a.abs()).max(b.abs())
+    a == b || (a - b).abs() <= 1e-9 * 1f64.max(a.abs()).max(b.abs())
 }
 
 fn approx_opt(a: Option<f64>, b: Option<f64>) -> bool {
@@ -1337,6 +1341,29 @@ pub fn run_agg(s: &mut Src, ctx: &mut Ctx) -> Verdict {
         return Verdict::Pass;
     }
     apply_exclusions(&mut case, Kind::Agg, ctx);
+    // One case in four (a pure function of the case, no draw) holds infinite readings: every Number(k/4) payload with k
+    // divisible by 3 becomes +inf (or, in every second such case, -inf). An infinity is a number: the smallest /
+    // largest / sum / average of a window that holds it are what the fold says, also when it is the only number.
+    {
+        let h = case.evs.iter().fold(case.d.wrapping_mul(13).wrapping_add(case.cap as u64), |a, e| a.wrapping_mul(31).wrapping_add(e.t));
+        if h % 4 == 0 {
+            let pos = (h / 4) % 2 == 0;
+            let mut any = false;
+            for e in case.evs.iter_mut() {
+                for p in [&mut e.a, &mut e.b] {
+                    if let Pay::Quarter(k) = *p {
+                        if k % 3 == 0 {
+                            *p = Pay::Inf(pos);
+                            any = true;
+                        }
+                    }
+                }
+            }
+            if any {
+                ctx.label(if pos { "payload:+inf" } else { "payload:-inf" });
+            }
+        }
+    }
     ctx.describe(|| format!("aggregates, {}", show(&case, Kind::Agg)));
     let d = case.d;
     let events: Vec<StreamEvent> = case.evs.iter().map(mk_event).collect();
